@@ -53,8 +53,17 @@ def run(prop, tier, seed, work):
                          field(4, "default", L(T("string"))), field(5, "default", T("i64"))])
     for k in range(ncopies):
         defs.update(graph(k))
+    # many tiny types: some of them share a slot of the descriptor table (chosen by the driver at run time)
+    ncol = 1500 if quick else 6000
+    for k in range(ncol):
+        defs["Col%d" % k] = struct([field(1, "default", T("i32"))])
     U.with_defaults(defs)
     scen = []
+    colv = {"f": {"1": [0, 0, 1, 2]}, "unk": []}
+    for k in range(4 if quick else 60):
+        sid = "C08-collide-%d" % k
+        scen.append({"sid": sid, "prop": prop, "vals": [colv], "tags": ["slot-collision"], "dkey": sid,
+                     "steps": [{"op": "par", "collide": 8, "readers": 3, "rounds": 6, "gomaxprocs": [2, 4, 16][k % 3], "hooks": True}]})
     sv = U.base_value({"k": "struct", "ptr": False, "s": "Steady"}, defs, 2, 1)
     for k in range(ncopies):
         n = lambda s: "%s%d" % (s, k)
